@@ -38,7 +38,7 @@ def rust_pat(mid, p):
             # to the error text, which the Layer A model does not print
             bits = [k for k in range(8) if (m8 >> k) & 1]
             inv = f"matching!(({bits[0]}) | ({bits[1] if len(bits) == 2 else 200}))"
-        elif nargs == 1 and p["dbg"] % 2 == 0:
+        elif nargs == 1 and (p["macro"] == "two" or p["dbg"] % 2 == 0):
             # two alternatives under ONE trailing guard (the first alternative matches no argument the harness uses)
             inv = f"matching!((a @ 200..=255) | (a) if ({m8}u64 >> *a) & 1 == 1)"
         elif nargs == 1: inv = f"matching!((a) if ({m8}u64 >> *a) & 1 == 1)"
